@@ -386,8 +386,8 @@ def _bytemap_zero_init(repo: Repo, wfn: ast.FunctionDef, wloop: ast.For) -> bool
 def pack_unpack(repo: Repo, rep, P: str, rule: str):
     mod = repo.cls("Module", module="rv.modules.module")
     from .. import inline
-    wfn = inline.normalize(repo, mod, repo.own_method(mod, "options_chunks"))
-    rfn = inline.normalize(repo, mod, repo.own_method(mod, "load_options"))
+    wfn = _options_nf(repo, mod, "options_chunks")
+    rfn = _options_nf(repo, mod, "load_options")
     rel = mod.file.rel
     rep.func("rv.modules.module.Module.options_chunks ∘ load_options")
     wloop, rloop = _loop_over_options(wfn), _loop_over_options(rfn)
@@ -477,11 +477,37 @@ def pack_unpack(repo: Repo, rep, P: str, rule: str):
 
 
 # ------------------------------------------------------------------------------------ R3
+def _options_nf(repo: Repo, mod: ClassInfo, name: str) -> ast.FunctionDef:
+    """The options writer / reader in normal form; private methods of the Option object called on the loop variable
+    (`option._stored_value_from(bytemap)`) are read through."""
+    from .. import inline
+    fn = inline.normalize(repo, mod, repo.own_method(mod, name))
+    try:
+        opt = repo.cls("Option", module="rv.option")
+    except Exception:
+        return fn
+    recv = {}
+    for lp in [n for n in ast.walk(fn) if isinstance(n, ast.For) and isinstance(n.target, ast.Name)]:
+        if "self.options" in norm(lp.iter) and any(isinstance(c, ast.Call) and isinstance(c.func, ast.Attribute) and isinstance(c.func.value, ast.Name)
+                                                   and c.func.value.id == lp.target.id and c.func.attr.startswith("_") and c.func.attr in opt.methods
+                                                   for c in ast.walk(lp)):
+            recv[lp.target.id] = opt
+    if recv:
+        fn = inline.normalize(repo, mod, repo.own_method(mod, name), receivers=recv)
+    return fn
+
+
+def _strip_list_copy(e: ast.expr) -> ast.expr:
+    while isinstance(e, ast.Call) and norm(e.func) in ("list", "tuple", "iter") and len(e.args) == 1 and not e.keywords:
+        e = e.args[0]
+    return e
+
+
 def record_length(repo: Repo, rep, P: str):
     mod = repo.cls("Module", module="rv.modules.module")
     from .. import inline
-    wfn = inline.normalize(repo, mod, repo.own_method(mod, "options_chunks"))
-    rfn = inline.normalize(repo, mod, repo.own_method(mod, "load_options"))
+    wfn = _options_nf(repo, mod, "options_chunks")
+    rfn = _options_nf(repo, mod, "load_options")
     rel = mod.file.rel
     from .. import alg, packed
     wcon, rcon = f"{rel}:Module.options_chunks", f"{rel}:Module.load_options"
@@ -550,7 +576,7 @@ def record_length(repo: Repo, rep, P: str):
             if isinstance(comp, (ast.GeneratorExp, ast.ListComp)) \
                     and len(comp.generators) == 1 and not comp.generators[0].ifs \
                     and isinstance(comp.generators[0].target, ast.Name) \
-                    and norm(packed.resolve_names(comp.generators[0].iter, it_defs)) in ("self.options.values()",):
+                    and norm(_strip_list_copy(packed.resolve_names(comp.generators[0].iter, it_defs))) in ("self.options.values()",):
                 gv = comp.generators[0].target.id
                 length_var = n.targets[0].id
                 try:
